@@ -13,3 +13,4 @@
 (define-fun artNameOf ((s String)) String (str.++ (strSlice s 0 (lastIndex s ".")) ".pem"))
 (declare-fun strAt (String Int) Int)            ; k-th byte of a string
 (assert (and (= (strAt "#HASH:" 0) 35) (= (strAt "#HASH:" 1) 72) (= (strAt "#HASH:" 2) 65) (= (strAt "#HASH:" 3) 83) (= (strAt "#HASH:" 4) 72) (= (strAt "#HASH:" 5) 58)))
+(declare-fun entryName (Any) String)          ; base name of a directory entry
